@@ -332,6 +332,8 @@ const HOSTS: &[(&str, &str)] = &[
     ("> A note.\n\n", "\n\n> Another.\n"),
     ("Use #pot{} and @salt{1%g}, then ", ""),
     ("Use #pot{} and ", " then @salt{1%g}."),
+    ("Take #bowls{2} and add ", "."),
+    ("Wait ~{5%min} in #pans{1/2} then ", " and @salt{2%g}"),
 ];
 
 pub fn check_converse(ctx: &mut Ctx, ps: &mut Parsers, subsets: &[u32]) {
@@ -418,6 +420,25 @@ pub fn run(ctx: &mut Ctx) {
         if ctx.mine(k as u64) {
             ctx.count("core_stray_texts");
             check_core(ctx, &mut ps, &subsets, t, None);
+        }
+    }
+    // texts that the parser with no extension either accepts or refuses (odd `>>` lines, below a front matter too): if it
+    // accepts one without an error, the text is a core recipe and every other subset has to agree
+    const MAYBE_CORE: &[&str] = &[">>: serve warm", ">> k", ">> k:", ">>", ">> : ", ">> a: b: c", ">>k:", ">> k :v", "= =", "=", "> ", ">"];
+    for (k, line) in MAYBE_CORE.iter().enumerate() {
+        for head in ["", "---\ntitle: Pancakes\n---\n\n"] {
+            if !ctx.mine((k * 2) as u64 + head.len().min(1) as u64) {
+                continue;
+            }
+            let text = format!("{head}Mix @flour{{200%g}} and @milk{{300%ml}}.\n\n{line}\n\nServe.\n");
+            let p0 = ps.parser(0, "bundled").clone();
+            let accepted = matches!(crate::core::guarded(|| p0.parse(&text)), Ok(r) if !r.report().has_errors());
+            if accepted {
+                ctx.count("core_accepted_odd_lines");
+                check_core(ctx, &mut ps, &subsets, &text, None);
+            } else {
+                ctx.count("odd_lines_refused_without_extensions(not judged)");
+            }
         }
     }
     let n = ctx.budget(1_600, 120_000);
